@@ -351,7 +351,22 @@ func (x *Exec) evalBuiltin(name string, e *ast.CallExpr, st *State, sp *SpecCtx,
 			x.eval(a, st, sp)
 		}
 		if name == "copy" {
-			if loc := x.lval(e.Args[0], st, sp); loc != nil && !loc.Opaque {
+			loc := x.lval(e.Args[0], st, sp)
+			if loc != nil && !loc.Opaque && len(loc.Idx) == 0 {
+				dst := x.readLoc(st, loc)
+				src := x.eval(e.Args[1], st, sp)
+				if dst.Term != nil && src.Term != nil && dst.Len != nil && src.Len != nil && dst.Term.S.K == SArr && dst.Term.S.Eq(src.Term.S) {
+					// dst[i] = src[i] for i < min(len(dst), len(src)); the rest of dst is unchanged
+					n := Ite(Le(dst.Len, src.Len), dst.Len, src.Len)
+					nd := x.freshSym(loc.Key, dst.Term.S)
+					x.fresh++
+					k := Sym(fmt.Sprintf("cp?%d", x.fresh), IntS)
+					x.assume(st, Forall([]*Term{k}, Eq(Select(nd, k), Ite(And(Le(IntLit(0), k), Lt(k, n)), Select(src.Term, k), Select(dst.Term, k)))), "copy")
+					st.store[loc.Key] = nd
+					return Value{T: intT, Term: n}
+				}
+			}
+			if loc != nil && !loc.Opaque {
 				x.havocKey(st, loc.Key)
 			}
 		}
